@@ -1030,7 +1030,14 @@ pub(crate) fn eval_up_to(
     for syn_id in syn_ids.iter().rev() {
         // TODO: this is iterating items twice, which will be slower.
         if let Some(expr) = find_expr_of_id(items, syn_id.id()) {
-            expr_id = Some(expr.id);
+            // A parenthesized expression is evaluated by evaluating
+            // its inner expression, so that's where we can stop.
+            let mut inner_expr = &expr;
+            while let Expression_::Parentheses(paren) = &inner_expr.expr_ {
+                inner_expr = &paren.expr;
+            }
+
+            expr_id = Some(inner_expr.id);
             position = Some(expr.position.clone());
             break;
         }
